@@ -247,6 +247,16 @@ def run_shard(spec):
             bad = ("operation-raised", f"{type(e).__name__}: {e} for A={a}, B={b}")
         if a[0] and b[0]:
             res.seen((a, b))
+        if not bad and idx % 13 == 0 and a[0]:
+            # the same operands as epoch-second timestamps (large floats one unit apart): relations are exact comparisons
+            sh = lambda spans: tuple((1.7e9 + s, 1.7e9 + e) for s, e in spans)
+            try:
+                bad = check_pair(sh(a[0]), a[1], sh(b[0]), b[1], form, [(1.7e9 + s, 1.7e9 + e) for s, e in u], res)
+            except Exception as e:
+                bad = ("operation-raised", f"{type(e).__name__}: {e} for A={a}, B={b} shifted by 1.7e9")
+            if bad:
+                bad = (bad[0], "[offsets shifted by 1.7e9 as floats] " + bad[1])
+            res.count("operand_pairs_with_large_float_offsets")
         nonlocal nconc
         if not bad and len(a[0]) >= 2 and b[0] and nconc < (60 if spec["tier"] == "quick" else 1500) and idx % 7 == 0:
             nconc += 1
@@ -262,7 +272,8 @@ def run_shard(spec):
             per_mech[bad[0]] = per_mech.get(bad[0], 0) + 1
             if per_mech[bad[0]] <= 10:
                 res.violation(bad[0], bad[1], {"case": {"a": [list(a[0]), a[1]], "b": [list(b[0]), b[1]],
-                                                        "form": form, "tier": spec["tier"]}})
+                                                        "form": form, "tier": spec["tier"],
+                                                        "shift": 1.7e9 if bad[1].startswith("[offsets shifted") else 0}})
         elif idx % 20011 == 0:
             res.sample({"A": list(a[0]), "relA": a[1], "B": list(b[0]), "relB": b[1], "form": form})
 
@@ -294,14 +305,16 @@ def extra_coverage(tier, seed):
 def replay(doc):
     instr.install(["windpyutils.structures.span_set"])
     c = doc["replay"]["case"]
-    a = (tuple(map(tuple, c["a"][0])), c["a"][1])
-    b = (tuple(map(tuple, c["b"][0])), c["b"][1])
+    sh = c.get("shift", 0)
+    a = (tuple((sh + s, sh + e) if sh else (s, e) for s, e in c["a"][0]), c["a"][1])
+    b = (tuple((sh + s, sh + e) if sh else (s, e) for s, e in c["b"][0]), c["b"][1])
     if c.get("threads"):
         bad = None
         for _ in range(30):
             bad = bad or concurrent_first_queries(a[0], a[1], b[0], b[1], universe(c.get("tier", "thorough")))
     else:
-        bad = check_pair(a[0], a[1], b[0], b[1], c["form"], universe(c.get("tier", "thorough")), ShardResult())
+        uni = universe(c.get("tier", "thorough"))
+        bad = check_pair(a[0], a[1], b[0], b[1], c["form"], [(sh + s, sh + e) for s, e in uni] if sh else uni, ShardResult())
     if bad:
         return True, f"reproduced: {bad[0]}: {bad[1]}"
     return False, "operand pair agrees with the definitions"
